@@ -480,6 +480,66 @@ mod composite_variants {
     }
 }
 
+/// C05 / C03: the code the DERIVE MACROS generate for a composite (serde_amqp_derive: no contract can reach a proc-macro's output) -- bounded stand-in. Local composites
+/// with every mix of optional / mandatory fields in tuple and named form; for each value the encoding is compared with an oracle written from the specification
+/// (descriptor, ONE list whose count is the number of fields up to the last one that is present, a null for every absent field before that, each present field once,
+/// in declaration order, nothing after it) and decoded back.
+mod derive_layout {
+    use serde_amqp::{from_slice, to_vec, macros::{SerializeComposite, DeserializeComposite}};
+    #[derive(Debug, Clone, PartialEq, SerializeComposite, DeserializeComposite)]
+    #[amqp_contract(name = "verif:t3:list", code = "0x0000_0000:0x0000_00f1", encoding = "list")]
+    pub struct T3(pub Option<bool>, pub i32, pub i32);
+    #[derive(Debug, Clone, PartialEq, SerializeComposite, DeserializeComposite)]
+    #[amqp_contract(name = "verif:t4:list", code = "0x0000_0000:0x0000_00f2", encoding = "list")]
+    pub struct T4(pub i32, pub Option<bool>, pub Option<i32>, pub i32);
+    #[derive(Debug, Clone, PartialEq, SerializeComposite, DeserializeComposite)]
+    #[amqp_contract(name = "verif:t3o:list", code = "0x0000_0000:0x0000_00f3", encoding = "list")]
+    pub struct T3o(pub i32, pub Option<bool>, pub Option<i32>);
+    #[derive(Debug, Clone, PartialEq, SerializeComposite, DeserializeComposite)]
+    #[amqp_contract(name = "verif:s4:list", code = "0x0000_0000:0x0000_00f4", encoding = "list", rename_all = "kebab-case")]
+    pub struct S4 { pub a: Option<bool>, pub b: i32, pub c: Option<i32>, pub d: i32 }
+    #[derive(Debug, Clone, PartialEq, SerializeComposite, DeserializeComposite)]
+    #[amqp_contract(name = "verif:s3o:list", code = "0x0000_0000:0x0000_00f5", encoding = "list", rename_all = "kebab-case")]
+    pub struct S3o { pub a: i32, pub b: Option<bool>, pub c: Option<i32> }
+
+    fn e_i32(v: i32) -> Vec<u8> { if (-128..=127).contains(&v) { vec![0x54, v as u8] } else { let mut o = vec![0x71]; o.extend_from_slice(&v.to_be_bytes()); o } }
+    fn e_bool(v: bool) -> Vec<u8> { vec![if v { 0x41 } else { 0x42 }] }
+    /// the specification's composite: descriptor (smallulong), then list0 / list8 of the fields up to the last present one
+    fn oracle(code: u8, fields: Vec<Option<Vec<u8>>>) -> Vec<u8> {
+        let mut out = vec![0x00, 0x53, code];
+        let n = fields.iter().rposition(|f| f.is_some()).map(|p| p + 1).unwrap_or(0);
+        if n == 0 { out.push(0x45); return out; }
+        let mut body = Vec::new();
+        for f in &fields[..n] { match f { Some(b) => body.extend_from_slice(b), None => body.push(0x40) } }
+        out.push(0xc0); out.push((body.len() + 1) as u8); out.push(n as u8); out.extend_from_slice(&body);
+        out
+    }
+    pub fn all(tried: &mut u64) -> Option<String> {
+        let ob = [None, Some(true), Some(false)];
+        let oi = [None, Some(0i32), Some(-1), Some(127), Some(128), Some(-129), Some(70000)];
+        let ii = [0i32, 1, -128, 127, 128, 0x7fff_ffff];
+        macro_rules! chk { ($v:expr, $t:ty, $want:expr) => { {
+            *tried += 1;
+            let v = $v;
+            let got = match to_vec(&v) { Ok(b) => b, Err(e) => return Some(format!("{:?} does not encode: {:?}", v, e)) };
+            if got != $want { return Some(format!("{:?} is encoded as {:02x?}; by the specification (fields in declaration order, a null for each absent field that a present one follows, trailing absent fields elided) it is {:02x?}", v, got, $want)); }
+            match from_slice::<$t>(&got) { Ok(back) => if back != v { return Some(format!("{:?} encodes to {:02x?}, which decodes to {:?}", v, got, back)); }, Err(e) => return Some(format!("{:?} encodes to {:02x?}, which does not decode: {:?}", v, got, e)) }
+        } } }
+        for a in ob { for &b in &ii { for &c in &ii {
+            chk!(T3(a, b, c), T3, oracle(0xf1, vec![a.map(e_bool), Some(e_i32(b)), Some(e_i32(c))]));
+        } } }
+        for &a in &ii { for b in ob { for c in oi { for &d in &[0i32, 300] {
+            chk!(T4(a, b, c, d), T4, oracle(0xf2, vec![Some(e_i32(a)), b.map(e_bool), c.map(e_i32), Some(e_i32(d))]));
+            chk!(S4 { a: b, b: a, c, d }, S4, oracle(0xf4, vec![b.map(e_bool), Some(e_i32(a)), c.map(e_i32), Some(e_i32(d))]));
+        } } } }
+        for &a in &ii { for b in ob { for c in oi {
+            chk!(T3o(a, b, c), T3o, oracle(0xf3, vec![Some(e_i32(a)), b.map(e_bool), c.map(e_i32)]));
+            chk!(S3o { a, b, c }, S3o, oracle(0xf5, vec![Some(e_i32(a)), b.map(e_bool), c.map(e_i32)]));
+        } } }
+        None
+    }
+}
+
 fn main() {
     let args: Vec<String> = std::env::args().collect();
     if args.len() < 2 { eprintln!("usage: verif-falsify <family> [seed]"); std::process::exit(2); }
@@ -525,6 +585,7 @@ fn main() {
         "C20.size-composites" => { found = size_composites::all(&mut tried); }
         "C05.spec-defaults" => { found = spec_defaults::all(&mut tried); }
         "C05.composite-variants" => { found = composite_variants::all(&mut tried); }
+        "C05.derive-layout" => { found = derive_layout::all(&mut tried); }
         "C20.value-tree-plain" => { found = value_tree::all(0, &mut tried); }
         "C20.value-tree-described" => { found = value_tree::all(1, &mut tried); }
         "C20.value-tree-untyped" => { found = value_tree::all(2, &mut tried); }
